@@ -145,7 +145,7 @@ class Case:
     an expectation. `classes` are the boundary classes this case lands in.
     expect[i] is None (don't care), a string (exact response) or a callable
     resp -> None | str (error description)."""
-    __slots__ = ("lines", "expect", "classes", "desc", "sig", "only")
+    __slots__ = ("lines", "expect", "classes", "desc", "sig", "only", "items")
 
     def __init__(self, lines, expect, classes=(), desc="", sig=None, only=None):
         self.lines = lines
@@ -156,6 +156,9 @@ class Case:
         # only: None (all configurations) or a tuple of names; a name
         # prefixed with '!' excludes that configuration.
         self.only = only
+        # items: when True, every request line of this case counts as a
+        # distinct explored item (long histories on one object)
+        self.items = False
 
     def applies(self, cfg):
         if self.only is None:
@@ -219,7 +222,11 @@ def _shard_worker(argt):
             for k in c.classes:
                 res["classes"][k] = res["classes"].get(k, 0) + 1
             if c.classes:
-                res["distinct"].add(hashlib.blake2s(("\n".join(c.lines)).encode(), digest_size=8).digest())
+                if c.items:
+                    for ln in c.lines:
+                        res["distinct"].add(hashlib.blake2s(ln.encode(), digest_size=8).digest())
+                else:
+                    res["distinct"].add(hashlib.blake2s(("\n".join(c.lines)).encode(), digest_size=8).digest())
         for cfgname, exe in exes:
             cases = [c for c in all_cases if c.applies(cfgname)]
             lines = []
